@@ -116,28 +116,37 @@ func c03run(out *rec.Out, c c03case, rng *rec.Rng, stats map[string]int) {
 	_ = merge
 	g.Nodes = g.Nodes[:0]
 	g = eng.NewGraph()
+	// conditions on sequence flows LEAVING a parallel gateway are not evaluated: every outgoing flow gets its token
+	crng := rng.Fork()
+	cmode := crng.Intn(3) // 0 none, 1 a false condition on every such flow, 2 on some
+	pc := func() *eng.Cond {
+		if cmode == 0 || (cmode == 2 && crng.Intn(2) == 0) {
+			return nil
+		}
+		return &eng.Cond{Op: "eq", Var: "pf", K: 1}
+	}
 	fork = g.Add("parallelGateway", "fork", "")
 	join = g.Add("parallelGateway", "join", "")
 	sync = g.Add("parallelGateway", "sync", "")
 	for i := 0; i < c.n; i++ {
 		u := g.Add("task", fmt.Sprintf("U%d", i), "")
-		g.Connect(fork, u, nil)
+		g.Connect(fork, u, pc())
 		g.Connect(u, join, nil)
 	}
 	for j := 0; j < c.m; j++ {
 		d := g.Add("task", fmt.Sprintf("D%d", j), "")
-		g.Connect(join, d, nil)
+		g.Connect(join, d, pc())
 		g.Connect(d, sync, nil)
 	}
 	lt := g.Task("task", "L", "", "c1")
-	g.Connect(sync, lt.Entry, nil)
+	g.Connect(sync, lt.Entry, pc())
 	body := eng.Frag{Entry: fork, Exit: lt.Exit}
 	loop := g.Loop("", body, &eng.Cond{Op: "lt", Var: "c1", K: c.acts})
 	g.Wrap(loop)
 
 	out.Begin("c03", c.n, c.m, c.acts)
 	defer out.End()
-	in, defs, err := eng.Start(g.XML(), map[string]any{"c1": 0})
+	in, defs, err := eng.Start(g.XML(), map[string]any{"c1": 0, "pf": 0})
 	if err != nil {
 		out.Line("harness-error %v", err)
 		return
@@ -145,8 +154,9 @@ func c03run(out *rec.Out, c c03case, rng *rec.Rng, stats map[string]int) {
 	for _, l := range eng.ProgLines(&(*defs.Processes())[0], g.CondRPN) {
 		out.Line("prog %s", l)
 	}
-	out.Line("prog vars c1=0")
+	out.Line("prog vars c1=0,pf=0")
 	stats["cases"]++
+	stats[fmt.Sprintf("parallel_outgoing_conditions_mode%d", cmode)]++
 	stats[fmt.Sprintf("n%d_m%d", c.n, c.m)]++
 	find := func(node string) *eng.Req {
 		for _, q := range in.Pending() {
